@@ -225,23 +225,31 @@ impl<'a> ExecutionEngine<'a> {
             let line_value = Value::String(line);
 
             if let Some(joined_table_data) = self.joined_table_data.as_ref() {
+                // Update with every joined row of the line, then produce one result table
+                // (not one table per joined row, concatenated).
                 let aggregate_execution_engine = &mut self.aggregate_execution_engine;
-                Ok(
-                    execute_join(
-                        table_definition,
-                        &row,
-                        &line_value,
-                        aggregate_statement.join.as_ref().unwrap(),
-                        joined_table_data,
-                        false,
-                        |column_provider| {
-                            aggregate_execution_engine.execute(
-                                aggregate_statement,
-                                column_provider
-                            )
+                let mut updated = false;
+                let output = execute_join(
+                    table_definition,
+                    &row,
+                    &line_value,
+                    aggregate_statement.join.as_ref().unwrap(),
+                    joined_table_data,
+                    false,
+                    |column_provider| {
+                        if aggregate_execution_engine.execute_update(aggregate_statement, column_provider)? {
+                            updated = true;
                         }
-                    )?
-                )
+
+                        Ok(None)
+                    }
+                )?;
+
+                if updated {
+                    Ok(ExecutionOutput::joined(Some(aggregate_execution_engine.execute_result(aggregate_statement)?)))
+                } else {
+                    Ok(output)
+                }
             } else {
                 let aggregate_execution_engine = &mut self.aggregate_execution_engine;
                 Ok(
